@@ -79,7 +79,16 @@ struct Runner {
         for (int i = 0; i < wlen && i < L; ++i) {
             w0[size_t(i)] = Traits<T>::cplx ? cd(wr.normal(), wr.normal()) : cd(wr.normal(), 0);
         }
-        if (std::abs(w0[0]) < 0.1L) {
+        // wseed odd: a system with a bulk delay (leading zero taps); otherwise the first tap is kept away from zero
+        if ((wseed & 2u) != 0 && wlen >= 2) {
+            const int lead = 1 + int(wr.below(uint64_t(std::min(wlen - 1, 3))));
+            for (int i = 0; i < lead; ++i) {
+                w0[size_t(i)] = cd(0, 0);
+            }
+            if (std::abs(w0[size_t(lead)]) < 0.1L) {
+                w0[size_t(lead)] = cd(1, 0);
+            }
+        } else if (std::abs(w0[0]) < 0.1L) {
             w0[0] = cd(1, 0);
         }
         track_ls = (!Traits<T>::cplx) && (algo == 2) && (L <= 8);
@@ -127,12 +136,15 @@ struct Runner {
     }
 
     // one call of process() on n fresh samples
-    bool call(int n) {
+    bool call(int n, bool silent = false) {
         const int64_t k0 = int64_t(x.size());
         dsplib::base_array<T> xa(n);
         dsplib::base_array<T> da(n);
         for (int i = 0; i < n; ++i) {
-            const cd v = Traits<T>::cplx ? cd(data.normal() * 0.7071067811865476, data.normal() * 0.7071067811865476) : cd(data.normal(), 0);
+            cd v = Traits<T>::cplx ? cd(data.normal() * 0.7071067811865476, data.normal() * 0.7071067811865476) : cd(data.normal(), 0);
+            if (silent) {
+                v = cd(0, 0);   // a pause in the input (x = 0, hence d = 0)
+            }
             x.push_back(v);
             xa[i] = Traits<T>::down(v);
         }
@@ -376,6 +388,18 @@ void drive(R& rn, const Plan& pl, Result& res) {
                     return;
                 }
             }
+        } else if (op.kind == "pause") {
+            const int64_t n = op.iarg(0);
+            if (n < 1 || n > 100000) {
+                res.invalid = true;
+                return;
+            }
+            rn.pattern += "P";
+            rn.last_event_at = int64_t(rn.x.size()) + n;   // a pause is an environment event: the liveness clock restarts after it
+            if (!rn.call(int(n), true)) {
+                return;
+            }
+            res.inc("fault.input_pause");
         } else if (op.kind == "lock") {
             rn.pattern += "L";
             rn.set_lock(true);
@@ -481,6 +505,9 @@ Plan gen(uint64_t seed, const std::string& tier) {
         } else if (c < 6) {
             op.kind = "frame";
             op.a = {double(r.logi(1, (algo == 2) ? 300 : 1500))};
+        } else if (c == 6 && r.chance(0.5)) {
+            op.kind = "pause";
+            op.a = {double(r.logi(1, 3 * L))};
         } else if (c < 8) {
             op.kind = locked ? "unlock" : "lock";
             locked = !locked;
